@@ -139,9 +139,10 @@ QUERIES = [
 QUERIES.append(
     Query("prestate", prestate,
           pre=dag_pre(N) + ["0 <= a < 6", "-1 <= b < 6", "1 <= step <= %d" % SMAX, "1 <= pre <= 5", "0 <= ti <= 1"],
-          partitions=lambda tier, seed: (product(a=[0], b=[-1, 1], pre=[1, 2, 3, 4, 5], T1=[False]) if tier == "quick" else product(a=[0, 1, 2], b=[-1, 1, 3, 5], pre=[1, 2, 3, 4, 5])),
+          partitions=lambda tier, seed: (product(a=[0], b=[-1], pre=[1, 2, 3, 4, 5], T1=[False], p1_2=[0, 1], p2_2=[-1, 0, 1]) + product(a=[0], b=[1], pre=[1, 3], T1=[False], p1_2=[1], p2_2=[0])
+                                         if tier == "quick" else product(a=[0, 1, 2], b=[-1, 1, 3, 5], pre=[1, 2, 3, 4, 5], p1_2=[-1, 0, 1])),
           natives=[dict(_NAT, a=0, b=-1, step=s_, pre=p_, w=100, ti=t_) for (s_, p_, t_) in ((2, 1, 0), (1, 1, 1), (3, 2, 0), (2, 3, 0), (1, 4, 0), (7, 5, 0), (2, 2, 1))] +
                   [dict(_NAT, p2_2=-1, a=0, b=1, step=2, pre=4, w=100, ti=0)],
-          bounds=lambda tier: {"pre_states": PRE[1:], "input_value": "unbounded symbolic int", "targets": "c2(1) alone or with c2(0) (quick)", "step_size": "1..%d symbolic" % SMAX},
+          bounds=lambda tier: {"pre_states": PRE[1:], "input_value": "unbounded symbolic int", "targets": "c2(1) alone (all pre-states, c2 calling c0/c1 in every way) or with c2(0) (quick)", "step_size": "1..%d symbolic" % SMAX},
           outside=["values computed (not assigned) before generate_actions", "targets that are inputs or elements of uncached cells"]))
 BUDGET = {"quick": 400, "thorough": 1200}
